@@ -30,8 +30,8 @@ def table(rnd):
         "generators / translators, %d still missed.\n\n| change | what it breaks / needs | result |\n|---|---|---|\n" % (rnd, tot, caught0, caughtS, missed))
   print("round %d: %d total, %d caught, %d after strengthening, %d missed" % (rnd, tot, caught0, caughtS, missed))
   return head + "\n".join(rows) if tot else ""
-t2, t3 = table(2), table(3)
-block = "<!-- BEGIN R2 -->\n" + t2 + ("\n\n" + t3 if t3 else "") + "\n<!-- END R2 -->"
+t2, t3, t4 = table(2), table(3), table(4)
+block = "<!-- BEGIN R2 -->\n" + t2 + ("\n\n" + t3 if t3 else "") + ("\n\n" + t4 if t4 else "") + "\n<!-- END R2 -->"
 dp = os.path.join(V, "DESIGN.md"); s = open(dp).read()
 if "<!-- BEGIN R2 -->" in s:
     s = re.sub(r"<!-- BEGIN R2 -->.*?<!-- END R2 -->", lambda _: block, s, flags=re.S)
